@@ -107,6 +107,10 @@ class Plugin(BasePlugin):
     def case_from_json(self, j):
         return j
 
+    def corpus(self):
+        # store-level schedule witnesses are replayed by extra_checks, not as lock schedules
+        return [c for c in BasePlugin.corpus(self) if 'store_schedule_seed' not in c]
+
     def extra_checks(self, rng, tier, seed):
         """Store-level schedules: scans, inserts, deletes, expiry passes and TTL index creation
         from several threads on one CollectionStore; yield points at lock operations and between
@@ -115,10 +119,16 @@ class Plugin(BasePlugin):
         now = datetime.datetime(2020, 1, 1)
         viol = []
         steps = scans = 0
+        # schedules that once exposed a (since repaired) race run first on every run
+        pinned = [k['witness'] for k in common.known_findings(self.id)
+                  if k.get('status') == 'fixed' and 'store_schedule_seed' in k.get('witness', {})]
         with mock.patch('mongomock.utcnow', return_value=now):
-            for i in range(n):
-                s = rng.randrange(1 << 30)
-                nt, no = rng.choice([2, 3, 4]), rng.choice([2, 3, 4])
+            for i in range(len(pinned) + n):
+                if i < len(pinned):
+                    s, nt, no = pinned[i]['store_schedule_seed'], pinned[i]['threads'], pinned[i]['ops_per_thread']
+                else:
+                    s = rng.randrange(1 << 30)
+                    nt, no = rng.choice([2, 3, 4]), rng.choice([2, 3, 4])
                 r = sched.run_store_schedule(random.Random(s), nt, no, lambda: now)
                 steps += r['steps']
                 scans += r['scans']
